@@ -43,7 +43,41 @@ def demo(src, exe):
     return rc, out[-600:]
 
 
+def recheck(name, prop):
+    """re-run the registered check against an already confirmed seeded change (after a check was strengthened)"""
+    import fcntl
+    dst = os.path.join(VERIF, "seeded", name)
+    patch = os.path.join(dst, "patch.diff")
+    meta = json.load(open(os.path.join(dst, "meta.json")))
+    lock = open("/work/seedcheck.lock", "w"); fcntl.flock(lock, fcntl.LOCK_EX)
+    assert sh("git -C /repo status --porcelain --untracked-files=no")[1].strip() == "", "/repo not clean"
+    rc, out = sh(f"git -C /repo apply {patch}")
+    if rc != 0:
+        print("patch does not apply to current /repo HEAD:", out); return
+    evf = os.path.join(VERIF, "evidence", prop + ".json")
+    ev_saved = open(evf).read() if os.path.exists(evf) else None
+    try:
+        t0 = time.time()
+        rc, out = sh(f"cd {VERIF} && ./check {prop} --tier quick")
+        res = {"at": time.strftime("%Y-%m-%d %H:%M:%S"), "exit": rc, "wall_s": round(time.time() - t0, 1),
+               "lines": [l[:600] for l in out.splitlines() if l.startswith("VIOLATION") or "TIE BROKEN" in l][:8],
+               "detected": rc != 0,
+               "detected_with_failing_input": any(l.startswith("VIOLATION") and "no-failing-input-found" not in l for l in out.splitlines())}
+    finally:
+        sh("git -C /repo checkout -- .")
+        sh(f"cd {VERIF} && python3 lib/regen_all.py")
+        if ev_saved is not None:
+            open(evf, "w").write(ev_saved)
+    meta.setdefault("confirmation", {}).setdefault("rechecks", []).append(res)
+    meta["confirmation"]["detected"] = res["detected"]
+    meta["confirmation"]["detected_with_failing_input"] = res["detected_with_failing_input"]
+    json.dump(meta, open(os.path.join(dst, "meta.json"), "w"), indent=1)
+    print(name, json.dumps({k: res[k] for k in ("exit", "detected", "detected_with_failing_input", "wall_s")}))
+
+
 def main():
+    if sys.argv[1] == "--recheck":
+        return recheck(sys.argv[2], sys.argv[3])
     sdir, prop, name = sys.argv[1], sys.argv[2], sys.argv[3]
     patch = os.path.join(sdir, "patch.diff")
     res = {"property": prop, "confirmed_at": time.strftime("%Y-%m-%d %H:%M:%S")}
